@@ -164,6 +164,9 @@ func oracleServe(c serveCase, o serveObs) []core.Failure {
 				fs = append(fs, fail("sidecar-without-servable-base", "request path %q: sidecar %q served but its base file %q is not a file below the root", c.path, sidecarAbs, base))
 			} else if h, _ := specHidden(c.cwd, c.hide, base); h {
 				fs = append(fs, fail("sidecar-of-hidden-file", "request path %q: sidecar %q of hidden file %q served (hide %q)", c.path, sidecarAbs, base, c.hide))
+			} else if h, _ := specHidden(c.cwd, c.hide, sidecarAbs); h {
+				// the base file may be served, but the bytes sent are those of a file that matches a hide rule
+				fs = append(fs, fail("hidden-sidecar-served", "request path %q: the bytes of %q, which is hidden (hide %q), were served as the %s form of %q", c.path, sidecarAbs, c.hide, o.sidecarEnc, base))
 			}
 		}
 	}
